@@ -32,6 +32,8 @@ MUTANTS = [
 
     {"id": "neutral/python-temporaries", "kind": "neutral", "props": ALL,
      "cmd": "/venv/bin/python /verif/selftest/neutral_temps.py . both"},
+    {"id": "neutral/python-call-argument-temporaries", "kind": "neutral", "props": ALL,
+     "cmd": "/venv/bin/python /verif/selftest/neutral_args.py ."},
     {"id": "neutral/python-local-renames", "kind": "neutral", "props": ALL,
      "cmd": "/venv/bin/python /verif/selftest/neutral_rename.py ."},
     {"id": "neutral/rust-local-renames", "kind": "neutral", "props": RUST,
